@@ -185,7 +185,7 @@ func (r *Rng) path() string {
 	return sb.String()
 }
 
-var queryBits = []string{"k=%25%2537E", "%%36%31=%%37E", "a=1", "b=2", "a=3", "q", "=", "=v", "k=", "a&b", "&&", "a=b=c", "x=%41", "x=1+1", "x=%2B", "x=%26", "n%3Dm=v", "é=ü", "%ff=1", "a b=c d", "a'b", "\"q\"", "<q>", "#", "?", "??", "a;b", "%", "%4", "%zz", "sp=%20", "\xff", "`", "{}", "|", "^", "\\", "[]", "Z=1", "z=1", "A=1", "\U0001F600=1", "\uE000=1"}
+var queryBits = []string{"%25FF", "x=%2525fe", "%25C3%2528=1", "k=%25%2537E", "%%36%31=%%37E", "a=1", "b=2", "a=3", "q", "=", "=v", "k=", "a&b", "&&", "a=b=c", "x=%41", "x=1+1", "x=%2B", "x=%26", "n%3Dm=v", "é=ü", "%ff=1", "a b=c d", "a'b", "\"q\"", "<q>", "#", "?", "??", "a;b", "%", "%4", "%zz", "sp=%20", "\xff", "`", "{}", "|", "^", "\\", "[]", "Z=1", "z=1", "A=1", "\U0001F600=1", "\uE000=1"}
 
 func (r *Rng) query() string {
 	n := 1 + r.Intn(4)
